@@ -46,13 +46,17 @@ def append_rule(ctx, rid):
             bound = dict(zip([p_ for p_ in h.positional if p_ != "self"], c.args))
             p_old = [p_ for p_, a_ in bound.items() if _expands_to(f, a_, {"self._full_df"})]
             p_new = [p_ for p_, a_ in bound.items() if _expands_to(f, a_, {"new_df"})]
+            if not p_old and len(p_new) == 1 and h.cls is f.cls and any(norm(x_) == "self._full_df" for x_ in ast.walk(h.node) if isinstance(x_, ast.Attribute)):
+                p_old = ["self._full_df"]          # a method of the same class that reads the accumulated table itself
             if len(p_old) == 1 and len(p_new) == 1:
                 hg = build_cfg(h.node)
                 ctx.touch(h, hg)
                 hcc = [c2 for _, c2, nm2 in all_calls(ctx, h, hg) if nm2 == "pandas.concat"]
                 hcp = [r for r in ast.walk(h.node) if isinstance(r, ast.Return) and r.value is not None and norm(r.value) in ("%s.copy(deep=True)" % p_new[0], "%s.copy()" % p_new[0])]
                 if len(hcc) == 1 and hcc[0].args and isinstance(hcc[0].args[0], (ast.List, ast.Tuple)) and len(hcc[0].args[0].elts) == 2:
-                    e0, e1 = [norm(x) for x in hcc[0].args[0].elts]
+                    x0, x1 = hcc[0].args[0].elts
+                    e0 = p_old[0] if _expands_to(h, x0, {p_old[0]}) else p_new[0] if _expands_to(h, x0, {p_new[0]}) else norm(x0)
+                    e1 = p_old[0] if _expands_to(h, x1, {p_old[0]}) else p_new[0] if _expands_to(h, x1, {p_new[0]}) else norm(x1)
                     if (e0, e1) == (p_old[0], p_new[0]):
                         rr.ok("add_df -> %s: concat([accumulated, new]) -- earlier rows first, unchanged" % h.name)
                     elif (e0, e1) == (p_new[0], p_old[0]):
@@ -81,6 +85,9 @@ def append_rule(ctx, rid):
             rr.bad(ctx.finding(rid, f, cc[0][1], "add_df concatenates the new rows *before* the accumulated ones (%s): earlier rows move" % norm(cc[0][1].args[0]), construct="concat-orientation"), "concat orientation")
         else:
             raise AnalysisError("idiom changed: operands of pd.concat in add_df: %s" % norm(cc[0][1].args[0]))
+    elif not cc and any(isinstance(c_, ast.Call) and isinstance(c_.func, ast.Attribute) and norm(c_.func.value) == "self" and c_.func.attr in s.methods and c_.func.attr not in ("load_full_df", "save_full_df")
+                        and any("new_df" in names_in(a_) for a_ in c_.args) for c_ in ast.walk(f.node)):
+        raise AnalysisError("idiom changed: add_df hands the new rows to a helper method in which the append is not recognised")
     elif not cc:
         rr.bad(ctx.finding(rid, f, f.node, "with an accumulated table present add_df does not concatenate it with the new rows: earlier rows are dropped", construct="concat-missing"), "concat orientation")
     else:
@@ -147,6 +154,9 @@ def one_run_one_append_rule(ctx, rid):
     if len(adds) == 1 and len(rp) == 1 and isinstance(rp[0][0].ast, ast.Assign) and norm(adds[0][1].args[0]) == norm(rp[0][0].ast.targets[0]) and \
             isinstance(arg(rp[0][1], None, "to_df"), ast.Constant) and arg(rp[0][1], None, "to_df").value is True:
         rr.ok("reap_samples: reap_runner(to_df=True) once -> add_df(that frame) once")
+    elif (not rp or not adds) and any(isinstance(c_, ast.Call) and isinstance(c_.func, ast.Attribute) and norm(c_.func.value) == "self" and r.cls is not None and c_.func.attr in r.cls.methods
+                                      and any(isinstance(x_, ast.Call) and norm(x_.func) in ("self.reap_runner", "sampler.add_df", "self.farmer.add_df") for x_ in ast.walk(r.cls.methods[c_.func.attr].node)) for c_ in ast.walk(r.node)):
+        raise AnalysisError("idiom changed: reap_samples reaps / appends through a helper method")
     else:
         rr.bad(ctx.finding(rid, r, r.node, "reap_samples does not append exactly the reaped frame once", construct="reap-samples-once"), "reap once")
     return rr
